@@ -158,6 +158,9 @@ func (s *Sim) logLocked(format string, args ...any) {
 	if s.Free {
 		return // race mode keeps no event log: the caller may hold a per-connection lock instead of s.mu
 	}
+	if s.draining {
+		return // teardown: the goroutines run freely now, the order of what they do is the Go scheduler's, not a tape decision
+	}
 	s.buf = s.buf[:0]
 	s.buf = fmt.Appendf(s.buf, "%d %d ", s.Step, int64(time.Since(s.Start)))
 	s.buf = fmt.Appendf(s.buf, format, args...)
@@ -464,6 +467,18 @@ func (s *Sim) BeforeLock(l *sync.RWMutex, write bool, name string) {
 			time.Sleep(time.Millisecond)
 		}
 	}
+}
+
+// YieldAtTryLock makes a non-blocking acquisition attempt a scheduling point (baton mode; nothing to do in race mode).
+func (s *Sim) YieldAtTryLock(l *sync.RWMutex) {
+	if s.Free {
+		return
+	}
+	id := s.taskOfGoroutine()
+	if id == "" {
+		id = "zz-trylock"
+	}
+	s.Park(id, "trylock", always)
 }
 
 // AfterLock is installed as the repo's SimAfterLock hook (race mode only: opens the gate for the next contender).
